@@ -108,7 +108,9 @@ def run(ctx):
         elif c == "X":
             vals = [bytes(n), b"\xff" * n]
         else:
-            vals = [0.0, -1.5, 3.0e38 if n == 4 else 1e308]
+            # zeros of both signs and of both numeric types one after the other (equal as Python values, different as
+            # encodings: what one call wrote must not decide what the next writes), then ordinary values
+            vals = [0.0, -0.0, 0, -0.0, 0.0, -1.5, 3.0e38 if n == 4 else 1e308]
         for name, kid in rng.sample(ks, min(len(ks), 3)):
             for v in vals:
                 for key in (name, kid):
